@@ -539,10 +539,8 @@ pub fn run_server_case(prop: &'static str, case: &ServerCase) -> Verdict {
             ph.store(34, Ordering::SeqCst);
             let mut live = rt::probe::live_lib_threads();
             let mut polls = 0;
-            // (few, long sleeps: a thread that stays behind in a timed loop of its own makes every
-            // virtual second cost steps)
-            while live > 0 && polls < 3 {
-                rt::thread::sleep(Duration::from_millis([5500u64, 5000, 4500][polls]));
+            while live > 0 && polls < 30 {
+                rt::thread::sleep(Duration::from_millis(500));
                 live = rt::probe::live_lib_threads();
                 polls += 1;
             }
